@@ -469,7 +469,12 @@ def hip_ra_reports(ctx):
     for name, t in texts:
         p = ctx.scratch / 'hip.out'
         p.write_text(t)
-        got = HipRaResult(str(p)).result
+        try:
+            got = HipRaResult(str(p)).result
+        except Exception as e:  # noqa
+            ctx.violate('property', 'hipra:raised', f'HipRaResult raises {type(e).__name__} on a HIP report [{os.path.basename(name)}]',
+                        inp={'id': name, 'text': t, 'hip': True}, expected='a result', observed=repr(e))
+            continue
         want = {}
         for sec, label, toks, ind, val in R.scalar_lines(t):
             if toks and re.fullmatch(r'[+-]?(\d+\.?\d*|\.\d+)(e[+-]?\d+)?', toks[0], re.I):
@@ -599,6 +604,23 @@ def search(ctx):
 def replay(ctx, data):
     fields, heads, names = c10_tables.client_tables()
     inp = data['input']
+    if inp.get('hip'):
+        from hip_ra import HipRaResult
+        p = ctx.scratch / 'hip.out'
+        p.write_text(inp['text'])
+        try:
+            got = HipRaResult(str(p)).result
+        except Exception as e:  # noqa
+            got = {'raised': repr(e)}
+        bad = 0
+        for sec, label, toks, ind, val in R.scalar_lines(inp['text']):
+            if toks and re.fullmatch(r'[+-]?(\d+\.?\d*|\.\d+)(e[+-]?\d+)?', toks[0], re.I):
+                want = {'value': float(toks[0]), 'unit': ' '.join(toks[1:]) or None}
+                if got.get(label) != want:
+                    print(f'report line "{label}": {want}; HipRaResult: {got.get(label)}')
+                    bad += 1
+        print('property', 'VIOLATED' if bad else 'holds', 'on this input')
+        return 1 if bad else 0
     it = {'id': inp.get('id', 'replay'), 'origin': 'replay', 'text': inp['text'], 'input': inp.get('input')}
     if inp.get('input') and data['key'].startswith('json:'):
         r = runner.run_many(ctx, [inp['input']], want_json=True)[0]
